@@ -373,9 +373,10 @@ def generate(rng, tier):
 ERRS = {"ValueError": "ValueError", "AttributeError": "AttributeError", "KeyError": "KeyError", "IndexError": "IndexError"}
 
 
-def _num(x):
+def _num(x, api=False):
+    """raw datasets store no-data as FLOAT_NDV; through the API no-data must come back as NaN"""
     x = float(x)
-    if x != x or abs(x - NDV) < 1e-44:
+    if x != x or (not api and abs(x - NDV) < 1e-44):
         return None
     if x.is_integer() and abs(x) < 10**9:
         return int(x)
@@ -518,7 +519,7 @@ class _Drv:
             elif arr.dtype.kind in "OSU":
                 data = [self.num(x) for x in arr.tolist()]
             else:
-                data = [_num(x) for x in arr.astype(float).tolist()]
+                data = [_num(x, api=True) for x in arr.astype(float).tolist()]
             mem[lab] = {"rows": rows, "data": data}
         vals = []
         live = set(self.num(x) for x in (g.concatenated_object_ids or []))
@@ -531,7 +532,7 @@ class _Drv:
             for c in hole.children:
                 if isinstance(c, Data):
                     v = self.ws.fetch_values(c)
-                    vals.append([c.name, hn, self.num(c.uid), None if v is None else [_num(x) for x in np.asarray(v, dtype=float).tolist()]])
+                    vals.append([c.name, hn, self.num(c.uid), None if v is None else [_num(x, api=True) for x in np.asarray(v, dtype=float).tolist()]])
         attrs = g.concatenated_attributes["Attributes"] if g.concatenated_attributes else []
         return {
             "tabs": tabs, "mem": mem, "objs": objs, "mem_objs": [self.num(x) for x in (g.concatenated_object_ids or [])],
